@@ -160,7 +160,7 @@ open Dhcp.Client.Timed
 
 variable {α : Type}
 
-theorem budget_eq_off (T n : Int) : budget T n = off T n.toNat := rfl
+theorem callBudget_eq_off (T n : Int) : callBudget T n = off T n.toNat := rfl
 
 /-! ### the observation sequence of a routed stream -/
 
@@ -263,7 +263,7 @@ position in the stream; everything before it is rejected. -/
 theorem refines_some {T n : Int} (hT : 0 < T) (m : α → Bool) (fl : Nat → Bool) (arr : List (Int × α))
     (ho : Ordered arr) (p : α) (hf : (streamOf arr).find? m = some p) :
     ∃ i t, arr[i]? = some (t, p) ∧ m p = true ∧ (∀ j q, j < i → arr[j]? = some q → m q.2 = false) ∧
-      ∀ (rest : List Obs) (H : Int), (n < 0 ∨ t < budget T n) →
+      ∀ (rest : List Obs) (H : Int), (n < 0 ∨ t < callBudget T n) →
         (runObs T n (obsOf m fl arr ++ rest) H).ret = some (t, .resp i) := by
   obtain ⟨pre, t, post, heq, hpre, hp⟩ := find_split m arr p hf
   subst heq
@@ -289,7 +289,7 @@ theorem refines_some {T n : Int} (hT : 0 < T) (m : α → Bool) (fl : Nat → Bo
 the call made exactly the tries begun by the arrival instant. -/
 theorem refines_some_full {T n : Int} (hT : 0 < T) (m : α → Bool) (fl : Nat → Bool) (pre post : List (Int × α))
     (t : Int) (p : α) (ho : Ordered (pre ++ (t, p) :: post)) (hpre : ∀ a ∈ pre, m a.2 = false) (hp : m p = true)
-    (hfl : fl pre.length = true) (rest : List Obs) (H : Int) (hb : n < 0 ∨ t < budget T n) :
+    (hfl : fl pre.length = true) (rest : List Obs) (H : Int) (hb : n < 0 ∨ t < callBudget T n) :
     ∃ k : Nat, T * (2 ^ k - 1) ≤ t ∧ t < T * (2 ^ (k + 1) - 1) ∧ (n < 0 ∨ (k : Int) < n) ∧
       runObs T n (obsOf m fl (pre ++ (t, p) :: post) ++ rest) H =
         ⟨(List.range (k + 1)).map (fun j => T * (2 ^ j - 1)), some (t, .resp pre.length)⟩ := by
@@ -313,8 +313,8 @@ the budget: the call fails with the no-response error at the budget
 `n < 0`: it is still running at every horizon.  No condition on the instants. -/
 theorem refines_none {T n : Int} (hT : 0 < T) (m : α → Bool) (fl : Nat → Bool) (arr : List (Int × α))
     (hf : (streamOf arr).find? m = none) (H : Int) :
-    (0 ≤ n → budget T n ≤ H →
-      runObs T n (obsOf m fl arr) H = ⟨sched T n.toNat, some (budget T n, .noResp)⟩) ∧
+    (0 ≤ n → callBudget T n ≤ H →
+      runObs T n (obsOf m fl arr) H = ⟨sched T n.toNat, some (callBudget T n, .noResp)⟩) ∧
     (n < 0 → (∀ a ∈ arr, a.1 ≤ H) → 0 ≤ H → (runObs T n (obsOf m fl arr) H).ret = none) ∧
     ((runObs T n (obsOf m fl arr) H).ret = none ∨ ∃ t, (runObs T n (obsOf m fl arr) H).ret = some (t, .noResp)) := by
   have hq : Quiet (obsOf m fl arr) := obsFrom_quiet m fl 0 arr (find_none m arr hf)
@@ -333,7 +333,7 @@ theorem sendAndRead_refines {T n : Int} (hT : 0 < T) (m : α → Bool) (fl : Nat
     (H : Int) (ho : Ordered arr) (hb : InBudget T n arr) :
     match (streamOf arr).find? m with
     | some p => ∃ i t, arr[i]? = some (t, p) ∧ (runObs T n (obsOf m fl arr) H).ret = some (t, .resp i)
-    | none => (0 ≤ n → budget T n ≤ H → (runObs T n (obsOf m fl arr) H).ret = some (budget T n, .noResp)) ∧
+    | none => (0 ≤ n → callBudget T n ≤ H → (runObs T n (obsOf m fl arr) H).ret = some (callBudget T n, .noResp)) ∧
               (n < 0 → (∀ a ∈ arr, a.1 ≤ H) → 0 ≤ H → (runObs T n (obsOf m fl arr) H).ret = none) := by
   cases hf : (streamOf arr).find? m with
   | some p =>
@@ -362,7 +362,7 @@ Whatever is observed afterwards (`rest`: e.g. the remainder of the stream)
 changes nothing. -/
 theorem refines_stop {T n : Int} (hT : 0 < T) (m : α → Bool) (fl : Nat → Bool) (pre : List (Int × α))
     (c : Int) (k : Kind) (hk : k = .ctx ∨ k = .closed) (tag : Nat) (after : Bool) (rest : List Obs) (H : Int)
-    (ho : Ordered pre) (hc : ∀ a ∈ pre, a.1 ≤ c) (h0 : 0 ≤ c) (hb : n < 0 ∨ c < budget T n) :
+    (ho : Ordered pre) (hc : ∀ a ∈ pre, a.1 ≤ c) (h0 : 0 ≤ c) (hb : n < 0 ∨ c < callBudget T n) :
     match (streamOf pre).find? m with
     | some p => ∃ i t, pre[i]? = some (t, p) ∧
         (runObs T n (obsOf m fl pre ++ ⟨c, k, tag, after⟩ :: rest) H).ret = some (t, .resp i)
@@ -391,7 +391,7 @@ theorem refines_stop {T n : Int} (hT : 0 < T) (m : α → Bool) (fl : Nat → Bo
 the part of the stream that arrived before -/
 theorem answer_refines_stop {T n : Int} (hT : 0 < T) (m : α → Bool) (fl : Nat → Bool) (pre post : List (Int × α))
     (c : Int) (k : Kind) (hk : k = .ctx ∨ k = .closed) (tag : Nat) (after : Bool) (H : Int)
-    (ho : Ordered pre) (hc : ∀ a ∈ pre, a.1 ≤ c) (h0 : 0 ≤ c) (hb : n < 0 ∨ c < budget T n) :
+    (ho : Ordered pre) (hc : ∀ a ∈ pre, a.1 ≤ c) (h0 : 0 ≤ c) (hb : n < 0 ∨ c < callBudget T n) :
     answer (pre ++ post)
       (runObs T n (obsOf m fl pre ++ ⟨c, k, tag, after⟩ :: obsFrom m fl pre.length post) H).ret =
       (streamOf pre).find? m := by
@@ -487,13 +487,13 @@ it; those exactly on it applied after the last deadline fired): the call's
 result is `find?` on `live` alone — late packets, accepted by the matcher or
 not, never reach the caller. -/
 theorem sendAndRead_refines_cut {T n : Int} (hT : 0 < T) (hn : 0 ≤ n) (m : α → Bool) (fl : Nat → Bool)
-    (live late : List (Int × α)) (H : Int) (ho : Ordered live) (hb : ∀ a ∈ live, a.1 < budget T n)
-    (hlate : ∀ a ∈ late, budget T n ≤ a.1) (hfl : ∀ i, live.length ≤ i → fl i = true) :
+    (live late : List (Int × α)) (H : Int) (ho : Ordered live) (hb : ∀ a ∈ live, a.1 < callBudget T n)
+    (hlate : ∀ a ∈ late, callBudget T n ≤ a.1) (hfl : ∀ i, live.length ≤ i → fl i = true) :
     match (streamOf live).find? m with
     | some p => ∃ i t, live[i]? = some (t, p) ∧
         (runObs T n (obsOf m fl (live ++ late)) H).ret = some (t, .resp i)
-    | none => budget T n ≤ H →
-        runObs T n (obsOf m fl (live ++ late)) H = ⟨sched T n.toNat, some (budget T n, .noResp)⟩ := by
+    | none => callBudget T n ≤ H →
+        runObs T n (obsOf m fl (live ++ late)) H = ⟨sched T n.toNat, some (callBudget T n, .noResp)⟩ := by
   have hsplit : obsOf m fl (live ++ late) = obsOf m fl live ++ obsFrom m fl live.length late := by
     simp [obsOf, obsFrom_append]
   rw [hsplit]
@@ -509,7 +509,7 @@ theorem sendAndRead_refines_cut {T n : Int} (hT : 0 < T) (hn : 0 ≤ n) (m : α 
     have h1 := hlate a (List.mem_of_getElem? ha)
     have h2 := hfl (live.length + j) (by omega)
     unfold LateObs
-    rw [budget_eq_off] at h1
+    rw [callBudget_eq_off] at h1
     simp only
     by_cases h : off T n.toNat < a.1
     · exact Or.inl h
@@ -517,19 +517,12 @@ theorem sendAndRead_refines_cut {T n : Int} (hT : 0 < T) (hn : 0 ≤ n) (m : α 
 
 /-! ### datagrams the caller never sees, interleaved -/
 
-theorem find_terminal_obsFrom (m : α → Bool) (fl : Nat → Bool) (arr : List (Int × α)) :
-    (obsOf m fl arr).find? isTerminal =
-      match (streamOf arr).find? m with
-      | some _ => (obsOf m fl arr).find? isTerminal
-      | none => none := by
-  cases hf : (streamOf arr).find? m with
-  | some p => rfl
-  | none =>
-    show _ = none
-    rw [List.find?_eq_none]
-    intro o ho
-    have := obsFrom_quiet m fl 0 arr (find_none m arr hf) o ho
-    simp [(isTerminal_false_iff o).2 this]
+theorem find_terminal_none (m : α → Bool) (fl : Nat → Bool) (arr : List (Int × α))
+    (hf : (streamOf arr).find? m = none) : (obsOf m fl arr).find? isTerminal = none := by
+  rw [List.find?_eq_none]
+  intro o ho
+  have := obsFrom_quiet m fl 0 arr (find_none m arr hf) o ho
+  simp [(isTerminal_false_iff o).2 this]
 
 /-- **With unseen traffic interleaved.** `obs` is ANY observation sequence in
 time order whose observations other than `irr` (datagrams for other
@@ -572,7 +565,7 @@ theorem refines_with_irrelevant {T n : Int} (hT : 0 < T) (m : α → Bool) (fl :
     simp [terminalOutcome, kindOf_acc hp]
   | none =>
     refine (first_terminal (n := n) hT obs H ho).2 ?_
-    rw [hfind, find_terminal_obsFrom, hf]
+    rw [hfind, find_terminal_none m fl arr hf]
 
 /-- **The corollary C13 uses.** Reading the machine's return back as a packet
 gives the abstract call's answer — for every horizon. -/
